@@ -2,7 +2,7 @@
 """Validates a seeded breaking change written by a sub-agent and records it under /verif/seeded/<id>/.
 
 usage: tools/seedcheck.py Cxx [extra-check ...]
-Takes /tmp/seed/Cxx/_seed/{patch.diff, *_test.go|*.go demo, NOTES.md}; in a fresh scratch worktree
+Takes $SEED_ROOT/Cxx/_seed (default /tmp/seed; records as seeded/Cxx$SEED_SUFFIX)/{patch.diff, *_test.go|*.go demo, NOTES.md}; in a fresh scratch worktree
 of /repo: (1) applies the patch, builds, runs the repository's tests (must pass);
 (2) runs the demonstration with the patch (must fail) and without it (must pass);
 (3) runs the property's quick check (and any extra checks) against the patched worktree.
@@ -18,7 +18,10 @@ def sh(cmd, cwd=None, timeout=1800):
 def main():
     pid = sys.argv[1]
     extra = sys.argv[2:]
-    src = f"/tmp/seed/{pid}/_seed"
+    global ROOT, SUFFIX
+    ROOT = os.environ.get("SEED_ROOT", "/tmp/seed")      # round 2: SEED_ROOT=/tmp/seed2 SEED_SUFFIX=b
+    SUFFIX = os.environ.get("SEED_SUFFIX", "")
+    src = f"{ROOT}/{pid}/_seed"
     patch = os.path.join(src, "patch.diff")
     if not os.path.exists(patch):
         print("no patch.diff for", pid); sys.exit(2)
@@ -39,8 +42,8 @@ def main():
         demo_results = {}
         for d in demos:
             base = os.path.basename(d)
-            live = [p for p in glob.glob(f"/tmp/seed/{pid}/**/{base}", recursive=True) if "/_seed/" not in p]
-            rel = os.path.dirname(os.path.relpath(live[0], f"/tmp/seed/{pid}")) if live else "."
+            live = [p for p in glob.glob(f"{ROOT}/{pid}/**/{base}", recursive=True) if "/_seed/" not in p]
+            rel = os.path.dirname(os.path.relpath(live[0], f"{ROOT}/{pid}")) if live else "."
             pkgline = [l for l in open(d) if l.startswith("package ")][0].split()[1]
             if pkgline == "main":
                 ddir = os.path.join(wt, "_seeddemo"); os.makedirs(ddir, exist_ok=True)
@@ -88,7 +91,7 @@ def finish(pid, src, meta, demos):
         meta["needs_to_manifest"] = open(notes).read()[:3000]
     print(json.dumps({k: v for k, v in meta.items() if k not in ("needs_to_manifest",)}, indent=1)[:3000])
     if meta.get("status") == "accepted":
-        dst = f"/verif/seeded/{pid}"
+        dst = f"/verif/seeded/{pid}{SUFFIX}"
         os.makedirs(dst, exist_ok=True)
         shutil.copy(os.path.join(src, "patch.diff"), dst)
         for d in demos or []:
